@@ -69,6 +69,13 @@ def cases(rng, tier):
                     "chmut": rng.choice([None, None, None, "pad", "pad2", "trunc", "flip", "b64std", "space", "veq"]),
                     "replay": rng.choice([None, "right", "wrong", "none"]),
                     "via": rng.choice(["query", "query", "request", "request_uri"])})
+    # two flows of ONE user agent that overlap: request A, then — before code A is redeemed — request B with the provider's session
+    # cookie (same client; same or different scope / redirect URI; its own challenge, or none), then both codes with every verifier
+    for _ in range(16 * n):
+        out.append({"t": "sso2", "essential": False, "mset": "all", "client": rng.choice(["client_1", "cl_noess"]),
+                    "mA": rng.choice(["S256", "plain", "S512"]), "mB": rng.choice(["S256", "plain", None]), "b_has": rng.random() < 0.7,
+                    "same_scope": rng.random() < 0.7, "cookie": rng.random() < 0.85, "vA": "".join(rng.choice(UNRES) for _ in range(50)),
+                    "vB": "".join(rng.choice(UNRES) for _ in range(50))})
     for _ in range(40 * n):
         out.append({"t": "rp", "method": rng.choice(["S256", "S384", "S512"]), "len": rng.choice([43, 64, 128]), "mset": rng.choice(["all", "s256", "s384_512"]),
                     "essential": rng.random() < 0.5})
@@ -173,8 +180,59 @@ def _run(s, client, challenge, method, verifier, replay=None, via="query"):
     return o
 
 
+def _sso2(s, c):
+    az, tk = s.get_endpoint("authorization"), s.get_endpoint("token")
+    client = c["client"]
+    legs = {}
+    cookie = None
+    for leg, (m, ver, has, scope) in (("A", (c["mA"], c["vA"], True, ["openid"])),
+                                      ("B", (c["mB"], c["vB"], c["b_has"], ["openid"] if c["same_scope"] else ["openid", "email"]))):
+        args = dict(client_id=client, redirect_uri=RED, scope=scope, state="st-" + leg, response_type="code", nonce="n-" + leg)
+        ch = hval(m or "plain", ver) if has else None
+        if ch is not None:
+            args["code_challenge"] = ch
+            if m is not None:
+                args["code_challenge_method"] = m
+        hi = {"cookie": cookie} if (cookie and c["cookie"]) else None
+        try:
+            pr = az.parse_request(AuthorizationRequest(**args).to_dict(), http_info=hi)
+            out = az.process_request(pr, http_info=hi) if "error" not in pr else pr
+        except Exception as e:
+            out = {"error": type(e).__name__}
+        code = out.get("response_args", {}).get("code") if isinstance(out, dict) and "response_args" in out else None
+        if isinstance(out, dict) and out.get("cookie"):
+            cookie = out["cookie"]
+        legs[leg] = {"code": code, "challenge": ch, "method": m, "ver": ver}
+    # each code with each verifier; the RIGHT one last (a code is single use)
+    tries = []
+    for leg, order in (("A", ["B", "none", "A"]), ("B", ["A", "none", "B"])):
+        L = legs[leg]
+        if not L["code"]:
+            continue
+        for who in order:
+            ver = None if who == "none" else legs[who]["ver"]
+            req = dict(client_id=client, client_secret=s.context.cdb[client]["client_secret"], redirect_uri=RED, grant_type="authorization_code", code=L["code"])
+            if ver is not None:
+                req["code_verifier"] = ver
+            try:
+                tp = tk.parse_request(req)
+                if "error" in tp:
+                    r = "error"
+                else:
+                    rr = tk.process_request(tp)
+                    r = "tokens" if "response_args" in rr and "access_token" in rr["response_args"] else "error"
+            except Exception:
+                r = "exc"
+            tries.append([leg, who, ver, r])
+            if r == "tokens":
+                break
+    return {"authz": "ok", "legs": legs, "tries": tries}
+
+
 def impl(c):
     s = server(c["essential"], c["mset"])
+    if c["t"] == "sso2":
+        return _sso2(s, c)
     if c["t"] == "flow":
         ver0 = c["verifier"] + "=" if c.get("chmut") == "veq" else c["verifier"]       # "veq": plain-style verifier that itself ends in '='
         ch = hval(c["challenge_method"], ver0) if c["has_challenge"] else None
@@ -216,6 +274,16 @@ def _methods(mset):
 
 
 def model_lines(c, obs):
+    if c["t"] == "sso2":
+        # every redemption attempt against the challenge THIS code's request carried (what was sent, not what the grant holds now)
+        lines = []
+        for leg, who, ver, r in obs["tries"]:
+            L = obs["legs"][leg]
+            m = L["method"] or "plain"
+            has = L["challenge"] is not None
+            hv = hval(m, ver) if (has and ver is not None) else "?"
+            lines.append("\t".join(["pkce", "token", "1" if has else "0", enc_str(L["challenge"]) if has else "-", enc_str(m) if has else "-", _opt(ver), enc_str(hv)]))
+        return lines
     ovr = {"client_1": "none", "cl_ess": "1", "cl_noess": "0"}[c.get("client", "client_1")]
     if c["t"] == "flow":
         ch, meth, ver = obs.get("challenge"), c["method"], _token_verifier(c) or None
@@ -230,6 +298,13 @@ def model_lines(c, obs):
 
 
 def compare(c, obs, outs):
+    if c["t"] == "sso2":
+        d = []
+        for (leg, who, ver, r), t in zip(obs["tries"], outs):
+            want = {"pass": "tokens", "error": "error", "exc": "exc"}[t]
+            if want != r and not (want == "tokens" and r == "error" and who != leg):
+                d.append(f"overlapping flows, code {leg} with verifier of {who}: model={t} impl={r}")
+        return d
     d = []
     a = outs[0].split("\t")
     if a[0] == "error":
@@ -250,6 +325,14 @@ def compare(c, obs, outs):
 
 def oracle(c, obs):
     v = []
+    if c["t"] == "sso2":
+        for leg, who, ver, r in obs["tries"]:
+            L = obs["legs"][leg]
+            if r == "tokens" and L["challenge"] is not None and (ver is None or hval(L["method"] or "plain", ver) != L["challenge"]):
+                v.append({"cls": "wrong-verifier-accepted", "flows": "overlapping", "code_of": leg, "verifier_of": who})
+            if r != "tokens" and who == leg and L["code"]:
+                v.append({"cls": "right-verifier-refused", "flows": "overlapping", "code_of": leg})
+        return v
     methods = _methods(c["mset"])
     if c["t"] == "rp":
         if c["method"] in methods and obs.get("token") != "tokens":
@@ -277,11 +360,13 @@ def known_key(c, v, known):
 
 
 def classify(c, obs):
+    if c["t"] == "sso2":
+        return "sso2:" + ("cookie" if c["cookie"] else "no-cookie") + ":" + ("same" if c["same_scope"] else "other-scope")
     return f"{c['t']}:{c.get('via', '-')}:{obs['authz']}:{obs.get('token')}"
 
 
 def nontrivial(c, obs):
-    return c["t"] == "rp" or (c["has_challenge"] and c["tv"] != "right") or c["client"] != "client_1" or c["mset"] != "all"
+    return c["t"] in ("rp", "sso2") or (c["has_challenge"] and c["tv"] != "right") or c["client"] != "client_1" or c["mset"] != "all"
 
 
 def generated_obligations():
